@@ -307,7 +307,10 @@ def _run(ctx):
             for p in ps:
                 lp = [e for e in p.eff if e[0] == 'loop']
                 r = p.ret
-                if len(lp) != 1 or not is_agg(r) or agg_field(r, 'bbox') != ('proj', ('param', 1), (('f', 'bbox'),)):
+                # the polygon returned is {the rings pushed in the loop, untouched afterwards; the box of the polyline, as stored}
+                kept_box = [v for k, v in (r[4] if is_agg(r) else ()) if v[0] == 'proj' and v[1] == ('param', 1) and len(v[2]) == 1]
+                pushed = [v for k, v in (r[4] if is_agg(r) else ()) if v[0] == 'lv']
+                if len(lp) != 1 or not is_agg(r) or len(r[4]) != 2 or len(kept_box) != 1 or len(pushed) != 1:
                     good = False
                     continue
                 for b in lp[0][3]:
@@ -425,19 +428,21 @@ def _run(ctx):
                             ds = [v for t, v in hp.cons if t[0] == 'discr' and isinstance(v, int) and absint.contains(t, ('param', 1))]
                             if hp.status == 'return' and len(ds) == 1 and is_agg(hp.ret, "record::multipatch::Patch") and not hp.eff \
                                     and hp.ret[4] and hp.ret[4][0][1] == ('param', 2):
-                                kind_to_patch[knames.get(ds[0])] = hp.ret[2]
+                                kind_to_patch.setdefault(knames.get(ds[0]), set()).add(hp.ret[2])
                     if 'elem' not in absint.term_str(hv[2][1]) or 'elem' not in absint.term_str(hv[2][0]):
                         zip_ok = False
                     continue
                 if kind and len(pu) == 1 and is_agg(pu[0][2], "record::multipatch::Patch"):
-                    kind_to_patch[kind] = pu[0][2][2]
+                    kind_to_patch.setdefault(kind, set()).add(pu[0][2][2])
                     payload = pu[0][2][4][0][1]
                     if 'elem' not in absint.term_str(payload):
                         zip_ok = False
     sp_codes = {x["name"]: x["code"] for x in sp["patch_types"]}
     for kname in sorted(sp_codes):
         c = (codes_w or {}).get(kname)
-        back = kind_to_patch.get(code_to_kind.get(c))
+        backs = kind_to_patch.get(code_to_kind.get(c)) or set()
+        # on every path (whatever came before in the record) the kind read becomes the same variant
+        back = next(iter(backs)) if len(backs) == 1 else ("/".join(sorted(str(x) for x in backs)) or None)
         ctx.ob("C01.patch", kname, c is not None and back == kname, "Patch::%s -> code %s -> kind %s -> Patch::%s" % (kname, c, code_to_kind.get(c), back),
                site=ctx.site_of(F, fr["def"]) if fr else None, key="C01.patch|%s" % kname)
     ctx.ob("C01.patch", "patch i with part i", bool(zip_ok), "kinds and point lists are zipped in reading order and each patch takes its own element",
